@@ -175,16 +175,16 @@ def ipAddMsgs (p : Proc) : List Nat → Option (List Msg)
     | some ms, some rest => some (Msg.ipUpd id ms :: rest)
     | _, _ => none
 
-/-- `getIPSetsSync`: (ei with syncedIPSets := newS, doAdd messages, doDel messages). -/
+/-- `getIPSetsSync`: (ei with syncedIPSets := newS, doAdd messages, doDel messages);
+toAdd = newS minus the synced sets, toDel = the synced sets minus newS. -/
 def ipSync (p : Proc) (ei : EpInfo) : Option (EpInfo × List Msg × List Msg) :=
   match wantedIP p ei.ep with
   | none => none
   | some newS =>
-    let toAdd := newS.filter (fun x => !ei.syncedIP.contains x)
-    let toDel := ei.syncedIP.filter (fun x => !newS.contains x)
-    match ipAddMsgs p toAdd with
+    match ipAddMsgs p (newS.filter (fun x => !ei.syncedIP.contains x)) with
     | none => none
-    | some adds => some ({ ei with syncedIP := newS }, adds, toDel.map Msg.ipRm)
+    | some adds =>
+      some ({ ei with syncedIP := newS }, adds, (ei.syncedIP.filter (fun x => !newS.contains x)).map Msg.ipRm)
 
 /-! ### syncAdded* / syncRemoved* -/
 
@@ -259,36 +259,43 @@ def broadcast (m : Msg) (eps : AMap EpInfo) : List Ev :=
 def handleInSync (p : Proc) : Proc × List Ev :=
   if p.inSync then (p, []) else ({ p with inSync := true }, broadcast Msg.inSync p.eps)
 
+def evsFor : Option Nat → List Msg → List Ev
+  | some c, ms => tag c ms
+  | none, _ => []
+
+def closeEv : Option Nat → List Ev
+  | some c => [(c, none)]
+  | none => []
+
+/-- the `EndpointInfo` that `handleWorkloadEndpointUpdate` syncs: a fresh one, or the existing one with the new update. -/
+def epForUpdate (p : Proc) (w : Nat) (e : Endpoint) : EpInfo :=
+  match p.eps.get w with
+  | none => { output := none, joinUID := 0, ep := some e, syncedPol := [], syncedProf := [], syncedIP := [] }
+  | some ei => { ei with ep := some e }
+
 /-- `handleWorkloadEndpointUpdate`. -/
 def handleEpUpdate (p : Proc) (w : Nat) (e : Endpoint) : Option (Proc × List Ev) :=
-  let ei : EpInfo := match p.eps.get w with
-    | none => { output := none, joinUID := 0, ep := some e, syncedPol := [], syncedProf := [], syncedIP := [] }
-    | some ei => { ei with ep := some e }
-  match maybeSync p w ei with
+  match maybeSync p w (epForUpdate p w e) with
   | none => none
-  | some (ei', ms) =>
-    some ({ p with eps := p.eps.set w ei' }, match ei'.output with | some c => tag c ms | none => [])
+  | some (ei', ms) => some ({ p with eps := p.eps.set w ei' }, evsFor ei'.output ms)
 
 /-- `handleWorkloadEndpointRemove`. -/
 def handleEpRemove (p : Proc) (w : Nat) : Option (Proc × List Ev) :=
   match p.eps.get w with
   | none => none
-  | some ei =>
-    let evs : List Ev := match ei.output with
-      | some c => [(c, some (Msg.epRm w)), (c, none)]
-      | none => []
-    some ({ p with eps := p.eps.del w }, evs)
+  | some ei => some ({ p with eps := p.eps.del w }, evsFor ei.output [Msg.epRm w] ++ closeEv ei.output)
+
+def epList (isPol : Bool) (e : Option Endpoint) : List Nat := if isPol then epPols e else epProfs e
+
+def markSynced (isPol : Bool) (ei : EpInfo) (id : Nat) : EpInfo :=
+  if isPol then { ei with syncedPol := sins ei.syncedPol id } else { ei with syncedProf := sins ei.syncedProf id }
 
 /-- the per-endpoint action of `handleActivePolicyUpdate` / `handleActiveProfileUpdate`. -/
 def refreshOne (p : Proc) (isPol : Bool) (id : Nat) (m : Msg) (ei : EpInfo) : Option (EpInfo × List Msg) :=
-  let listed := if isPol then (epPols ei.ep).contains id else (epProfs ei.ep).contains id
-  if listed then
+  if (epList isPol ei.ep).contains id then
     match ipSync p ei with
     | none => none
-    | some (ei1, adds, dels) =>
-      let ei2 := if isPol then { ei1 with syncedPol := sins ei1.syncedPol id }
-                 else { ei1 with syncedProf := sins ei1.syncedProf id }
-      some (ei2, adds ++ [m] ++ dels)
+    | some (ei1, adds, dels) => some (markSynced isPol ei1 id, adds ++ [m] ++ dels)
   else some (ei, [])
 
 /-- `handleActivePolicyUpdate`. -/
@@ -320,20 +327,28 @@ def referencesIP (p : Proc) (ei : EpInfo) (x : Nat) : Option Bool :=
   | some true => some true
   | some false => scanRefs p.pols x (epPols ei.ep)
 
+/-- per-endpoint body of the loop of `handleIPSetUpdate`. -/
+def ipUpdOne (p1 : Proc) (id : Nat) (ms : List Nat) (ei : EpInfo) : Option (EpInfo × List Msg) :=
+  match referencesIP p1 ei id with
+  | none => none
+  | some true => some ({ ei with syncedIP := sins ei.syncedIP id }, [Msg.ipUpd id ms])
+  | some false => some (ei, [])
+
+/-- per-endpoint body of the loop of `handleIPSetDeltaUpdate`. -/
+def ipDeltaOne (p1 : Proc) (id : Nat) (adds dels : List Nat) (ei : EpInfo) : Option (EpInfo × List Msg) :=
+  match referencesIP p1 ei id with
+  | none => none
+  | some true => some (ei, [Msg.ipDelta id adds dels])
+  | some false => some (ei, [])
+
 /-- `handleIPSetUpdate`. Members are stored as a duplicate-free list. -/
 def handleIPUpdate (p : Proc) (id : Nat) (ms : List Nat) : Option (Proc × List Ev) :=
   match p.ipsets.get id with
   | none => some ({ p with ipsets := p.ipsets.set id (dedup ms) }, [])
   | some _ =>
-    let p1 := { p with ipsets := p.ipsets.set id (dedup ms) }
-    let f := fun (ei : EpInfo) =>
-      match referencesIP p1 ei id with
-      | none => none
-      | some true => some ({ ei with syncedIP := sins ei.syncedIP id }, [Msg.ipUpd id ms])
-      | some false => some (ei, [])
-    match eachUpdateable f p1.eps with
+    match eachUpdateable (ipUpdOne { p with ipsets := p.ipsets.set id (dedup ms) } id ms) p.eps with
     | none => none
-    | some (eps', evs) => some ({ p1 with eps := eps' }, evs)
+    | some (eps', evs) => some ({ p with ipsets := p.ipsets.set id (dedup ms), eps := eps' }, evs)
 
 /-- `ipSetInfo.deltaUpdate`: adds first, then removes. -/
 def applyDelta (cur adds dels : List Nat) : List Nat :=
@@ -341,40 +356,35 @@ def applyDelta (cur adds dels : List Nat) : List Nat :=
 
 /-- `handleIPSetDeltaUpdate`. An unknown set is a nil dereference unless the
 delta is empty. -/
+def deltaStore (p : Proc) (id : Nat) (adds dels : List Nat) : Option Proc :=
+  match p.ipsets.get id with
+  | none => if adds.isEmpty && dels.isEmpty then some p else none
+  | some cur => some { p with ipsets := p.ipsets.set id (applyDelta cur adds dels) }
+
 def handleIPDelta (p : Proc) (id : Nat) (adds dels : List Nat) : Option (Proc × List Ev) :=
-  let p1? : Option Proc := match p.ipsets.get id with
-    | none => if adds.isEmpty && dels.isEmpty then some p else none
-    | some cur => some { p with ipsets := p.ipsets.set id (applyDelta cur adds dels) }
-  match p1? with
+  match deltaStore p id adds dels with
   | none => none
   | some p1 =>
-    let f := fun (ei : EpInfo) =>
-      match referencesIP p1 ei id with
-      | none => none
-      | some true => some (ei, [Msg.ipDelta id adds dels])
-      | some false => some (ei, [])
-    match eachUpdateable f p1.eps with
+    match eachUpdateable (ipDeltaOne p1 id adds dels) p1.eps with
     | none => none
     | some (eps', evs) => some ({ p1 with eps := eps' }, evs)
 
-/-- `handleJoin`. -/
+/-- the `EndpointInfo` a join starts from (pre-created when unknown). -/
+def joinOld (p : Proc) (w : Nat) : EpInfo :=
+  match p.eps.get w with
+  | none => { output := none, joinUID := 0, ep := none, syncedPol := [], syncedProf := [], syncedIP := [] }
+  | some ei => ei
+
+/-- `handleJoin`: close the old channel if any, reset the synced sets, sync, then send every
+service account and namespace and the in-sync marker. -/
 def handleJoin (p : Proc) (w uid : Nat) : Option (Proc × List Ev) :=
-  let c := p.nextCh
-  let old : EpInfo := match p.eps.get w with
-    | none => { output := none, joinUID := 0, ep := none, syncedPol := [], syncedProf := [], syncedIP := [] }
-    | some ei => ei
-  let closeEv : List Ev := match old.output with
-    | some oc => [(oc, none)]
-    | none => []
-  let ei : EpInfo := { old with joinUID := uid, output := some c, syncedPol := [], syncedProf := [], syncedIP := [] }
-  match maybeSync p w ei with
+  match maybeSync p w { joinOld p w with joinUID := uid, output := some p.nextCh, syncedPol := [], syncedProf := [], syncedIP := [] } with
   | none => none
   | some (ei', ms) =>
-    let saMsgs := p.sas.map (fun kv => Msg.saUpd kv.1 kv.2)
-    let nsMsgs := p.nss.map (fun kv => Msg.nsUpd kv.1 kv.2)
-    let sync := if p.inSync then [Msg.inSync] else []
-    some ({ p with eps := p.eps.set w ei', nextCh := c + 1 },
-      closeEv ++ tag c (ms ++ saMsgs ++ nsMsgs ++ sync))
+    some ({ p with eps := p.eps.set w ei', nextCh := p.nextCh + 1 },
+      closeEv (joinOld p w).output ++
+        tag p.nextCh (ms ++ p.sas.map (fun kv => Msg.saUpd kv.1 kv.2) ++ p.nss.map (fun kv => Msg.nsUpd kv.1 kv.2) ++
+          (if p.inSync then [Msg.inSync] else [])))
 
 /-- condition of the deferred clean-up of `handleLeave`. -/
 def cleanupCond (ei : EpInfo) : Bool := ei.output.isNone && ei.joinUID == 0 && ei.ep.isNone
